@@ -11,6 +11,10 @@ ASSUMPTIONS = [
     "after the task finished and with nothing else in between (the harness's marker callback, registered from inside the "
     "distribution task, therefore runs right after PowerDistributingActor._handle_task_completion)",
     "frequenz.channels Broadcast delivers requests to the actor's receiver in send order",
+    "restart of the receive loop (Actor restart after an unhandled exception in _run, or stop() followed by start()): the "
+    "distribution tasks are plain asyncio tasks the service does not own, so they are not cancelled and their done-callbacks keep "
+    "running; the channel receiver persists; requests sent while the loop is down are consumed after the restart, in order",
+    "requests are told apart by object identity (the harness maps id(request) to a sequence number); their VALUES may be equal",
     "cancellation of a distribution task is outside the property's quantifier (task.result() would raise CancelledError "
     "out of the completion callback)",
 ]
@@ -61,6 +65,8 @@ class C14Stream(D.DistStream):
                           f"waiting request is {waiting[g]}")
                 elif mine:
                     V(f"coalesce: completion of group {g} started {mine} although nothing was waiting")
+            elif kind == "R":
+                pass        # a restart of the receive loop must change nothing: the bookkeeping above simply continues
             else:
                 V(f"coalesce: distribute_power called outside an arrival or a completion callback: {starts}")
             for sg, sr in starts:
